@@ -10,6 +10,10 @@ import Chrono.Extracted.Anchors
 namespace Chrono.Pins.C10
 open Chrono.Extracted.Anchors
 
+/-- src/datetime/mod.rs:fn format_with_items -/
+theorem src_datetime_mod_rs_fn_format_with_items : C10_src_datetime_mod_rs_fn_format_with_items =
+    ["<", "I", "B", ">", "&", "self", "v1", "I", "->", "DelayedFormat", "<", "I", ">", "I", "Iterator", "<", "Item", "B", ">", "+", "Clone", "B", "Borrow", "<", "Item", "<", ">>", "v2", "self", "overflowing_naive_local(", "DelayedFormat", "new_with_offset(", "Some(", "v2", "date(", "Some(", "v2", "time(", "&", "self", "v3", "v1"] := by decide +kernel
+
 /-- src/datetime/mod.rs:fn parse_from_rfc3339 -/
 theorem src_datetime_mod_rs_fn_parse_from_rfc3339 : C10_src_datetime_mod_rs_fn_parse_from_rfc3339 =
     ["v1", "&", "str", "->", "ParseResult", "<", "DateTime", "<", "FixedOffset", ">>", "v2", "Parsed", "new(", "let(", "v1", "v3", "parse_rfc3339(", "&", "v2", "v1", "?", "if", "!", "v1", "is_empty(", "return", "Err(", "TOO_LONG", "v2", "to_datetime("] := by decide +kernel
@@ -25,6 +29,14 @@ theorem src_datetime_mod_rs_fn_to_rfc3339_opts : C10_src_datetime_mod_rs_fn_to_r
 /-- src/format/formatting.rs:fn format -/
 theorem src_format_formatting_rs_fn_format : C10_src_format_formatting_rs_fn_format =
     ["<", "I", "B", ">", "v1", "&", "v2", "Formatter", "v3", "Option", "<", "&", "NaiveDate", ">", "v4", "Option", "<", "&", "NaiveTime", ">", "v5", "Option", "<", "&", "String", "FixedOffset", ">", "v6", "I", "->", "v2", "Result", "I", "Iterator", "<", "Item", "B", ">", "+", "Clone", "B", "Borrow", "<", "Item", "<", ">>", "DelayedFormat", "v3", "v3", "copied(", "v4", "v4", "copied(", "v5", "v5", "cloned(", "v6", "v7", "default_locale(", "fmt(", "v1", "§", "&", "self", "v1", "&", "Write", "v2", "FixedOffset", "->", "v3", "Result", "v2", "v2", "local_minus_utc(", "if", "self", "v4", "&&", "v2", "==", "0", "v1", "write_char(", "'Z'", "?", "return", "Ok(", "let(", "v5", "v2", "if", "v2", "<", "0", "'-'", "-", "v2", "else", "'+'", "v2", "v6", "v7", "0", "v8", "0", "v9", "match", "self", "v9", "OffsetPrecision", "Hours", "=>", "v6", "v2", "/", "3600", "as", "u8", "OffsetPrecision", "Hours", "OffsetPrecision", "Minutes", "|", "OffsetPrecision", "OptionalMinutes", "=>", "v10", "v2", "+", "30", "/", "60", "v7", "v10", "%", "60", "as", "u8", "v6", "v10", "/", "60", "as", "u8", "if", "self", "v9", "==", "OffsetPrecision", "OptionalMinutes", "&&", "v7", "==", "0", "OffsetPrecision", "Hours", "else", "OffsetPrecision", "Minutes", "OffsetPrecision", "Seconds", "|", "OffsetPrecision", "OptionalSeconds", "|", "OffsetPrecision", "OptionalMinutesAndSeconds", "=>", "v10", "v2", "/", "60", "v8", "v2", "%", "60", "as", "u8", "v7", "v10", "%", "60", "as", "u8", "v6", "v10", "/", "60", "as", "u8", "if", "self", "v9", "!=", "OffsetPrecision", "Seconds", "&&", "v8", "==", "0", "if", "self", "v9", "==", "OffsetPrecision", "OptionalMinutesAndSeconds", "&&", "v7", "==", "0", "OffsetPrecision", "Hours", "else", "OffsetPrecision", "Minutes", "else", "OffsetPrecision", "Seconds", "v11", "self", "v11", "==", "Colons", "Colon", "if", "v6", "<", "10", "if", "self", "v12", "==", "Pad", "Space", "v1", "write_char(", "' '", "?", "v1", "write_char(", "v5", "?", "if", "self", "v12", "==", "Pad", "Zero", "v1", "write_char(", "'0'", "?", "v1", "write_char(", "b'0'", "+", "v6", "as", "char", "?", "else", "v1", "write_char(", "v5", "?", "write_hundreds(", "v1", "v6", "?", "if", "OffsetPrecision", "Minutes", "|", "OffsetPrecision", "Seconds", "v9", "if", "v11", "v1", "write_char(", "':'", "?", "write_hundreds(", "v1", "v7", "?", "if", "OffsetPrecision", "Seconds", "v9", "if", "v11", "v1", "write_char(", "':'", "?", "write_hundreds(", "v1", "v8", "?", "Ok("] := by decide +kernel
+
+/-- src/format/formatting.rs:fn format_fixed -/
+theorem src_format_formatting_rs_fn_format_fixed : C10_src_format_formatting_rs_fn_format_fixed =
+    ["&", "self", "v1", "&", "Write", "v2", "&", "Fixed", "->", "v3", "Result", "Fixed", "*", "InternalInternal", "*", "match(", "v2", "self", "v4", "self", "v5", "self", "v6", "as_ref(", "ShortMonthName", "Some(", "v7", "v8", "v8", "=>", "v1", "write_str(", "short_months(", "self", "v9", "v7", "month0(", "as", "usize", "LongMonthName", "Some(", "v7", "v8", "v8", "=>", "v1", "write_str(", "long_months(", "self", "v9", "v7", "month0(", "as", "usize", "ShortWeekdayName", "Some(", "v7", "v8", "v8", "=>", "v1", "write_str(", "short_weekdays(", "self", "v9", "v7", "weekday(", "num_days_from_sunday(", "as", "usize", "LongWeekdayName", "Some(", "v7", "v8", "v8", "=>", "v1", "write_str(", "long_weekdays(", "self", "v9", "v7", "weekday(", "num_days_from_sunday(", "as", "usize", "LowerAmPm", "v8", "Some(", "v10", "v8", "=>", "v11", "if", "v10", "hour12(", "am_pm(", "self", "v9", "1", "else", "am_pm(", "self", "v9", "0", "for", "v12", "in", "v11", "chars(", "flat_map(", "|", "v12", "|", "v12", "to_lowercase(", "v1", "write_char(", "v12", "?", "Ok(", "UpperAmPm", "v8", "Some(", "v10", "v8", "=>", "v11", "if", "v10", "hour12(", "am_pm(", "self", "v9", "1", "else", "am_pm(", "self", "v9", "0", "v1", "write_str(", "v11", "Nanosecond", "v8", "Some(", "v10", "v8", "=>", "v13", "v10", "nanosecond(", "%", "1000000000", "if", "v13", "==", "0", "Ok(", "else", "v1", "write_str(", "decimal_point(", "self", "v9", "?", "if", "v13", "%", "1000000", "==", "0", "write!(", "v1", "\"{:03}\"", "v13", "/", "1000000", "else", "if", "v13", "%", "1000", "==", "0", "write!(", "v1", "\"{:06}\"", "v13", "/", "1000", "else", "write!(", "v1", "\"{:09}\"", "v13", "Nanosecond3", "v8", "Some(", "v10", "v8", "=>", "v1", "write_str(", "decimal_point(", "self", "v9", "?", "write!(", "v1", "\"{:03}\"", "v10", "nanosecond(", "/", "1000000", "%", "1000", "Nanosecond6", "v8", "Some(", "v10", "v8", "=>", "v1", "write_str(", "decimal_point(", "self", "v9", "?", "write!(", "v1", "\"{:06}\"", "v10", "nanosecond(", "/", "1000", "%", "1000000", "Nanosecond9", "v8", "Some(", "v10", "v8", "=>", "v1", "write_str(", "decimal_point(", "self", "v9", "?", "write!(", "v1", "\"{:09}\"", "v10", "nanosecond(", "%", "1000000000", "Internal(", "InternalFixed", "v14", "Nanosecond3NoDot", "v8", "Some(", "v10", "v8", "=>", "write!(", "v1", "\"{:03}\"", "v10", "nanosecond(", "/", "1000000", "%", "1000", "Internal(", "InternalFixed", "v14", "Nanosecond6NoDot", "v8", "Some(", "v10", "v8", "=>", "write!(", "v1", "\"{:06}\"", "v10", "nanosecond(", "/", "1000", "%", "1000000", "Internal(", "InternalFixed", "v14", "Nanosecond9NoDot", "v8", "Some(", "v10", "v8", "=>", "write!(", "v1", "\"{:09}\"", "v10", "nanosecond(", "%", "1000000000", "TimezoneName", "v8", "v8", "Some(", "v15", "v8", "=>", "write!(", "v1", "\"{}\"", "v15", "TimezoneOffset", "|", "TimezoneOffsetZ", "v8", "v8", "Some(", "v8", "v6", "=>", "v16", "OffsetFormat", "v17", "OffsetPrecision", "Minutes", "v18", "Colons", "Maybe", "v19", "*", "v2", "==", "TimezoneOffsetZ", "v20", "Pad", "Zero", "v16", "format(", "v1", "*", "v6", "TimezoneOffsetColon", "|", "TimezoneOffsetColonZ", "v8", "v8", "Some(", "v8", "v6", "=>", "v16", "OffsetFormat", "v17", "OffsetPrecision", "Minutes", "v18", "Colons", "Colon", "v19", "*", "v2", "==", "TimezoneOffsetColonZ", "v20", "Pad", "Zero", "v16", "format(", "v1", "*", "v6", "TimezoneOffsetDoubleColon", "v8", "v8", "Some(", "v8", "v6", "=>", "v16", "OffsetFormat", "v17", "OffsetPrecision", "Seconds", "v18", "Colons", "Colon", "v19", "false", "v20", "Pad", "Zero", "v16", "format(", "v1", "*", "v6", "TimezoneOffsetTripleColon", "v8", "v8", "Some(", "v8", "v6", "=>", "v16", "OffsetFormat", "v17", "OffsetPrecision", "Hours", "v18", "Colons", "None", "v19", "false", "v20", "Pad", "Zero", "v16", "format(", "v1", "*", "v6", "RFC2822", "Some(", "v7", "Some(", "v10", "Some(", "v8", "v6", "=>", "write_rfc2822(", "v1", "NaiveDateTime", "new(", "v7", "v10", "*", "v6", "RFC3339", "Some(", "v7", "Some(", "v10", "Some(", "v8", "v6", "=>", "write_rfc3339(", "v1", "NaiveDateTime", "new(", "v7", "v10", "*", "v6", "SecondsFormat", "AutoSi", "false", "v8", "=>", "Err(", "v3", "Error"] := by decide +kernel
+
+/-- src/format/formatting.rs:fn format_item -/
+theorem src_format_formatting_rs_fn_format_item : C10_src_format_formatting_rs_fn_format_item =
+    ["v1", "&", "v2", "Formatter", "v3", "Option", "<", "&", "NaiveDate", ">", "v4", "Option", "<", "&", "NaiveTime", ">", "v5", "Option", "<", "&", "String", "FixedOffset", ">", "v6", "&", "Item", "<", ">", "->", "v2", "Result", "DelayedFormat", "v3", "v3", "copied(", "v4", "v4", "copied(", "v5", "v5", "cloned(", "v7", "v6", "into_iter(", "v8", "default_locale(", "fmt(", "v1"] := by decide +kernel
 
 /-- src/format/formatting.rs:fn write_rfc3339 -/
 theorem src_format_formatting_rs_fn_write_rfc3339 : C10_src_format_formatting_rs_fn_write_rfc3339 =
@@ -70,9 +82,17 @@ theorem callee_src_datetime_mod_rs_fn_from_naive_utc_and_offset : C10_callee_src
 theorem callee_src_datetime_mod_rs_fn_overflowing_naive_local : C10_callee_src_datetime_mod_rs_fn_overflowing_naive_local =
     ["&", "self", "->", "NaiveDateTime", "self", "v1", "overflowing_add_offset(", "self", "v2", "fix("] := by decide +kernel
 
+/-- callee src/format/formatting.rs:fn new_with_offset -/
+theorem callee_src_format_formatting_rs_fn_new_with_offset : C10_callee_src_format_formatting_rs_fn_new_with_offset =
+    ["<", "Off", ">", "v1", "Option", "<", "NaiveDate", ">", "v2", "Option", "<", "NaiveTime", ">", "v3", "&", "Off", "v4", "I", "->", "DelayedFormat", "<", "I", ">", "Off", "Offset", "+", "Display", "v5", "v3", "to_string(", "v3", "fix(", "DelayedFormat", "v1", "v2", "v6", "Some(", "v5", "v4", "v7", "default_locale("] := by decide +kernel
+
 /-- callee src/format/formatting.rs:fn write_hundreds -/
 theorem callee_src_format_formatting_rs_fn_write_hundreds : C10_callee_src_format_formatting_rs_fn_write_hundreds =
     ["v1", "&", "Write", "v2", "u8", "->", "v3", "Result", "if", "v2", ">=", "100", "return", "Err(", "v3", "Error", "v4", "b'0'", "+", "v2", "/", "10", "v5", "b'0'", "+", "v2", "%", "10", "v1", "write_char(", "v4", "as", "char", "?", "v1", "write_char(", "v5", "as", "char"] := by decide +kernel
+
+/-- callee src/format/formatting.rs:fn write_rfc2822 -/
+theorem callee_src_format_formatting_rs_fn_write_rfc2822 : C10_callee_src_format_formatting_rs_fn_write_rfc2822 =
+    ["v1", "&", "Write", "v2", "NaiveDateTime", "v3", "FixedOffset", "->", "v4", "Result", "v5", "v2", "year(", "if!(", "0", "..=", "9999", "contains(", "&", "v5", "return", "Err(", "v4", "Error", "v6", "default_locale(", "v1", "write_str(", "short_weekdays(", "v6", "v2", "weekday(", "num_days_from_sunday(", "as", "usize", "?", "v1", "write_str(", "\", \"", "?", "v7", "v2", "day(", "if", "v7", "<", "10", "v1", "write_char(", "b'0'", "+", "v7", "as", "u8", "as", "char", "?", "else", "write_hundreds(", "v1", "v7", "as", "u8", "?", "v1", "write_char(", "' '", "?", "v1", "write_str(", "short_months(", "v6", "v2", "month0(", "as", "usize", "?", "v1", "write_char(", "' '", "?", "write_hundreds(", "v1", "v5", "/", "100", "as", "u8", "?", "write_hundreds(", "v1", "v5", "%", "100", "as", "u8", "?", "v1", "write_char(", "' '", "?", "let(", "v8", "v9", "v10", "v2", "time(", "hms(", "write_hundreds(", "v1", "v8", "as", "u8", "?", "v1", "write_char(", "':'", "?", "write_hundreds(", "v1", "v9", "as", "u8", "?", "v1", "write_char(", "':'", "?", "v10", "v10", "+", "v2", "nanosecond(", "/", "1000000000", "write_hundreds(", "v1", "v10", "as", "u8", "?", "v1", "write_char(", "' '", "?", "OffsetFormat", "v11", "OffsetPrecision", "Minutes", "v12", "Colons", "None", "v13", "false", "v14", "Pad", "Zero", "format(", "v1", "v3"] := by decide +kernel
 
 /-- callee src/format/parsed.rs:fn resolve_week_date -/
 theorem callee_src_format_parsed_rs_fn_resolve_week_date : C10_callee_src_format_parsed_rs_fn_resolve_week_date =
@@ -218,8 +238,16 @@ theorem callee_src_offset_mod_rs_fn_from_local_datetime : C10_callee_src_offset_
 theorem callee_src_time_delta_rs_fn_try_seconds : C10_callee_src_time_delta_rs_fn_try_seconds =
     ["v1", "i64", "->", "Option", "<", "TimeDelta", ">", "TimeDelta", "new(", "v1", "0"] := by decide +kernel
 
+/-- callee src/traits.rs:fn hour12 -/
+theorem callee_src_traits_rs_fn_hour12 : C10_callee_src_traits_rs_fn_hour12 =
+    ["&", "self", "->", "bool", "u32", "v1", "self", "hour(", "v2", "v1", "%", "12", "if", "v2", "==", "0", "v2", "12", "v1", ">=", "12", "v2"] := by decide +kernel
+
 /-- callee src/weekday.rs:fn days_since -/
 theorem callee_src_weekday_rs_fn_days_since : C10_callee_src_weekday_rs_fn_days_since =
     ["&", "self", "v1", "Weekday", "->", "u32", "v2", "*", "self", "as", "u32", "v3", "v1", "as", "u32", "if", "v2", "<", "v3", "7", "+", "v2", "-", "v3", "else", "v2", "-", "v3"] := by decide +kernel
+
+/-- callee src/weekday.rs:fn num_days_from_sunday -/
+theorem callee_src_weekday_rs_fn_num_days_from_sunday : C10_callee_src_weekday_rs_fn_num_days_from_sunday =
+    ["&", "self", "->", "u32", "self", "days_since(", "Weekday", "Sun"] := by decide +kernel
 
 end Chrono.Pins.C10
